@@ -45,7 +45,11 @@ def array_support(func):
                 vals.append(iterator(v, *args[1:], **kwargs))
 
             if isinstance(args[0], np.ndarray):
-                vals = np.array(vals)
+                # keep python integers of extended precision arrays (numpy would mix them into float64)
+                if args[0].dtype == object or (len(vals) > 0 and all(isinstance(v, int) for v in vals) and np.array(vals).dtype.kind == 'f'):
+                    vals = np.array(vals, dtype=object)
+                else:
+                    vals = np.array(vals)
             return vals
         else:
             return func(*args, **kwargs)
@@ -54,6 +58,9 @@ def array_support(func):
 #%%
 @array_support
 def twos_complement_repr(val, nbits):
+    if isinstance(val, np.generic):
+        val = val.item()    # python number: numpy integers overflow with words of 63 bits or more
+
     if val < 0:
         val = (1 << nbits) + val
     else:
@@ -389,7 +396,7 @@ def min_pow2(x, n_frac=0):
 def binary_invert(x, n_word=None):
     if n_word is None:
         n_word = bits_len(x)
-    return int((1 << n_word) - 1 - x)
+    return int((1 << n_word) - 1 - int(x))
 
 @array_support
 def binary_and(x, y, n_word=None):
